@@ -186,7 +186,7 @@ def lcaseOf (j : Json) : EchoLoad.Case :=
     expand := (strList (field j "expand")).map dirOf }
 
 def lsuiteOf (j : Json) : EchoLoad.Suite :=
-  { name := str (field j "name"), mode := nat (field j "mode"), onlyConnect := bool (field j "onlyConnect"),
+  { name := str (field j "name"), mode := nat (field j "mode"), protos := natList (field j "protos"),
     codecs := natList (field j "codecs"), tls := bool (field j "tls"), certs := bool (field j "certs"),
     get := bool (field j "get"), cvm := nat (field j "cvm"), cases := (arr (field j "cases")).map lcaseOf }
 
